@@ -239,72 +239,73 @@ theorem SInv.micro {c : Cfg} {me : Nat} (hc : c.self = some me) {L0 : Log} {base
       rw [e1, List.drop_append_of_le_length hlen, ownVotes_append, ← List.append_assoc]
       exact this.mono (fun pc r x v hv => voted_append_left _ _ _ _ _ _ hv)
 
-theorem drain_SInv {c : Cfg} {me : Nat} (hc : c.self = some me) {L0 : Log} {base : List Output} (fuel : Nat)
-    {s : NodeState} (h : SInv c me L0 base s) : SInv c me L0 base (drain c fuel s) := by
-  induction fuel generalizing s with
-  | zero => unfold drain; exact h
-  | succ n ih =>
-    unfold drain
-    split
-    · exact h
-    · split
-      · exact h
-      · rename_i m rest hq
-        have h' : SInv c me L0 base { s with queue := rest } :=
-          ⟨h.ext, ⟨h.mi.g, h.mi.a, h.mi.t, h.mi.j, h.mi.w, by
-            have := h.mi.n
-            show NI _ _ _ _ _
-            have e : s.queue = m :: rest := hq
-            have hn : NI me s.out s.round s.queue s.out := this
-            rw [e] at hn
-            exact hn.pop, h.mi.own⟩, h.hist⟩
-        apply ih
-        refine SInv.micro hc (fun t => handleInternal c t m)
-          (handleInternal_G m) (handleInternal_A m) (fun hA hT => handleInternal_T m hA hT)
-          (handleInternal_J m) ?_ (handleInternal_N hc m) h'
-        intro hw
-        apply handleInternal_W m _ hw
-        intro v hv _ _
-        subst hv
-        have hq' : Internal.vote v ∈ s.queue := by rw [hq]; exact List.mem_cons_self
-        obtain ⟨q1, _, q3⟩ := h.mi.n.qi v hq'
-        rw [EL_nat]
-        have := h.mi.own v.typ v.round v.bid q3
-        rw [q1]; exact this
+theorem NI.eraseIdx {me base r q out} (k : Nat) (h : NI me base r q out) : NI me base r (q.eraseIdx k) out :=
+  ⟨h.ext, h.a4, h.sorted, h.sched, fun v hv => h.qi v (List.mem_of_mem_eraseIdx hv)⟩
 
-/-- **step specification**: what one step of a correct node adds to the log -/
-theorem step_spec {c : Cfg} {me : Nat} (hc : c.self = some me) (L0 : Log) (s : NodeState) (i : Input)
-    (h : MInv c me L0 s) (hi : i.notFuture s)
-    (hin : ∀ v peer, i = .vote v peer → v.val < c.n → v.sigOK = true →
-      voted L0 (v.typ == VType.precommit) v.round v.bid v.val = true) :
-    ∃ new, (step c s i).out = s.out ++ new ∧ MInv c me (L0 ++ ownVotes me new) (step c s i) ∧
+/-- what follows from `SInv` over one item, in the form the network lift uses -/
+theorem SInv.spec {c : Cfg} {me : Nat} {L0 : Log} {s s' : NodeState} (key : SInv c me L0 s.out s') :
+    ∃ new, s'.out = s.out ++ new ∧ MInv c me (L0 ++ ownVotes me new) s' ∧
       ∀ k (hk : k < new.length) t r x, new[k] = Output.signVote t r x →
         GoodOut c (L0 ++ ownVotes me (new.take k)) (s.out ++ new.take k) t r x := by
-  have key : SInv c me L0 s.out (step c s i) := by
-    unfold step
-    split
-    · exact SInv.start h
-    · apply drain_SInv hc
-      refine SInv.micro hc (fun t => handleInput c t i)
-        (handleInput_G i hi) (handleInput_A i) (fun hA hT => handleInput_T i hi hA hT)
-        (handleInput_J i hi) ?_ (handleInput_N hc i) (SInv.start h)
-      intro hw
-      apply handleInput_W i _ hw
-      intro v peer hv h1 h2
-      rw [EL_nat]
-      exact voted_append_left _ _ _ _ _ _ (hin v peer hv h1 h2)
   obtain ⟨new, hnew⟩ := key.ext
-  have hd : (step c s i).out.drop s.out.length = new := by rw [hnew]; simp
+  have hd : s'.out.drop s.out.length = new := by rw [hnew]; simp
   refine ⟨new, hnew, ?_, ?_⟩
   · have := key.mi; rw [hd] at this; exact this
   · intro k hk t r x hx
-    have hk2 : s.out.length + k < (step c s i).out.length := by rw [hnew]; simp; omega
-    have e : (step c s i).out[s.out.length + k] = Output.signVote t r x := by
+    have hk2 : s.out.length + k < s'.out.length := by rw [hnew]; simp; omega
+    have e : s'.out[s.out.length + k] = Output.signVote t r x := by
       rw [← hx]; simp only [hnew]; rw [List.getElem_append_right (by omega)]; simp
     have := key.hist (s.out.length + k) hk2 (by omega) t r x e
-    have e1 : (step c s i).out.take (s.out.length + k) = s.out ++ new.take k := by
+    have e1 : s'.out.take (s.out.length + k) = s.out ++ new.take k := by
       rw [hnew, List.take_append, List.take_of_length_le (by omega)]; simp
     rw [e1, List.drop_append_of_le_length (Nat.le_refl _)] at this
     simpa using this
+
+/-- **item specification**: what a correct node adds to the log when it handles ONE item — an external
+input (a timeout for a round reached; a correctly signed vote must come from the log), or any one of
+its own queued messages -/
+theorem ext_spec {c : Cfg} {me : Nat} (hc : c.self = some me) (L0 : Log) (s : NodeState) (i : Input)
+    (h : MInv c me L0 s) (hi : i.notFuture s)
+    (hin : ∀ v peer, i = .vote v peer → v.val < c.n → v.sigOK = true →
+      voted L0 (v.typ == VType.precommit) v.round v.bid v.val = true) :
+    ∃ new, (handleInput c s i).out = s.out ++ new ∧ MInv c me (L0 ++ ownVotes me new) (handleInput c s i) ∧
+      ∀ k (hk : k < new.length) t r x, new[k] = Output.signVote t r x →
+        GoodOut c (L0 ++ ownVotes me (new.take k)) (s.out ++ new.take k) t r x := by
+  apply SInv.spec
+  refine SInv.micro hc (fun t => handleInput c t i)
+    (handleInput_G i hi) (handleInput_A i) (fun hA hT => handleInput_T i hi hA hT)
+    (handleInput_J i hi) ?_ (handleInput_N hc i) (SInv.start h)
+  intro hw
+  apply handleInput_W i _ hw
+  intro v peer hv h1 h2
+  rw [EL_nat]
+  exact voted_append_left _ _ _ _ _ _ (hin v peer hv h1 h2)
+
+theorem own_spec {c : Cfg} {me : Nat} (hc : c.self = some me) (L0 : Log) (s : NodeState) (k : Nat) (m : Internal)
+    (hk : s.queue[k]? = some m) (h : MInv c me L0 s) :
+    let s' := handleInternal c { s with queue := s.queue.eraseIdx k } m
+    ∃ new, s'.out = s.out ++ new ∧ MInv c me (L0 ++ ownVotes me new) s' ∧
+      ∀ j (hj : j < new.length) t r x, new[j] = Output.signVote t r x →
+        GoodOut c (L0 ++ ownVotes me (new.take j)) (s.out ++ new.take j) t r x := by
+  intro s'
+  have h' : MInv c me L0 { s with queue := s.queue.eraseIdx k } :=
+    ⟨h.g, h.a, h.t, h.j, h.w, by
+      have hn : NI me s.out s.round s.queue s.out := h.n
+      exact hn.eraseIdx k, h.own⟩
+  have hmem : m ∈ s.queue := List.mem_of_getElem? hk
+  have key : SInv c me L0 s.out s' := by
+    refine SInv.micro hc (fun t => handleInternal c t m)
+      (handleInternal_G m) (handleInternal_A m) (fun hA hT => handleInternal_T m hA hT)
+      (handleInternal_J m) ?_ (handleInternal_N hc m) (SInv.start h')
+    intro hw
+    apply handleInternal_W m _ hw
+    intro v hv _ _
+    subst hv
+    obtain ⟨q1, _, q3⟩ := h.n.qi v hmem
+    rw [EL_nat]
+    have := h.own v.typ v.round v.bid q3
+    rw [q1]
+    exact voted_append_left _ _ _ _ _ _ this
+  exact SInv.spec key
 
 end Tmv.Cons
